@@ -109,7 +109,10 @@ class Nativizer:
         if isinstance(v, SList):
             out = []
             self.memo[key] = out
-            out.extend(self.nat(x) for x in v.items)
+            items = v.items
+            if self.pre and id(v) in getattr(self.I, "list_init", {}):
+                items = self.I.list_init[id(v)]  # the list as the target's setup built it
+            out.extend(self.nat(x) for x in items)
             return out
         if isinstance(v, SSet):
             out = set(self.nat(x) for x in v.items)
@@ -154,6 +157,14 @@ class Nativizer:
             if v.live is not None:
                 return v.live
             cls = v.cands[0]
+            if issubclass(cls, tuple) and hasattr(cls, "_fields"):
+                fields = v.init if (self.pre and v.lazy) else v.fields
+                try:
+                    obj = cls(*[self.nat(fields[n]) if n in fields else self.default_of(self.I.field_type(v, n)) for n in cls._fields])
+                except Exception as e:  # noqa: BLE001
+                    raise CannotNativize(f"cannot build named tuple {cls.__name__}: {e}")
+                self.memo[key] = obj
+                return obj
             try:
                 obj = object.__new__(cls)
             except TypeError as e:
@@ -459,9 +470,40 @@ def replay_region(target, I, env, model, outcome, nz, out):
 
     live = resolve(target.func)
     fnode, mod = func_node(live)
-    k = find_stmt(fnode.body, target.start_at)
-    k2 = find_stmt(fnode.body, target.cut_at) if target.cut_at else len(fnode.body)
-    stmts = fnode.body[k:k2]
+    loop_mode = getattr(target, "loop_body", None) is not None
+    if loop_mode:
+        from .interp import stmt_matches
+
+        header, contains = target.loop_body
+        found = [n for n in _ast.walk(fnode) if isinstance(n, _ast.For) and stmt_matches(n, header)
+                 and (contains is None or any(stmt_matches(x, contains) for b in n.body for x in _ast.walk(b) if isinstance(x, _ast.stmt)))]
+        if len(found) != 1:
+            out["note"] = "loop not found for native replay"
+            return out
+        # one iteration: the real body inside a one-trip loop so that continue / break keep their meaning
+        stmts = [_ast.For(target=_ast.Name(id="__once", ctx=_ast.Store()), iter=_ast.List(elts=[_ast.Constant(value=0)], ctx=_ast.Load()),
+                          body=found[0].body, orelse=[])]
+    else:
+        body = fnode.body
+        k = find_stmt(body, target.start_at)
+        if k is None:
+            blk = body
+            while k is None and blk and isinstance(blk[-1], _ast.If):
+                nxt = None
+                for sub in (blk[-1].body, blk[-1].orelse):
+                    kk = find_stmt(sub, target.start_at)
+                    if kk is not None:
+                        body, k = sub, kk
+                        break
+                    if sub and isinstance(sub[-1], _ast.If) and nxt is None:
+                        nxt = sub
+                if k is None:
+                    blk = nxt
+        if k is None:
+            out["note"] = "start point not found for native replay"
+            return out
+        k2 = find_stmt(body, target.cut_at) if target.cut_at else len(body)
+        stmts = body[k:k2]
     if any(isinstance(n, (_ast.Return, _ast.Yield)) for st in stmts for n in _ast.walk(st)):
         out["note"] = "region contains return/yield: not replayed natively"
         return out
@@ -513,6 +555,9 @@ def replay_region(target, I, env, model, outcome, nz, out):
     post.pool = nz.pool
     names = sorted(assigned_names_direct(stmts))
     pl = env.get("__locals") or {}
+    if loop_mode or not names:
+        # effects are on objects reachable from the locals: compare every local of the region
+        names = sorted(n for n in pl if n in nlocals)
     pred, obs = {}, {}
     ok = True
     for n in names:
@@ -564,7 +609,7 @@ def replay_path(target, I, env, model, outcome):
     except Exception as e:
         out["note"] = f"nativisation failed: {e!r}"
         return out
-    if target.start_at is not None:
+    if target.start_at is not None or getattr(target, "loop_body", None) is not None:
         return replay_region(target, I, env, model, outcome, nz, out)
     cut_reached = bool(env.get("__cut"))
     # native stubs for the callee contracts, returning what the model says they return
